@@ -17,7 +17,8 @@ PROPS = {
                 "pieces), content a function of the seed; 1..3 honest peers among which every piece is spread (each piece at one random peer plus "
                 "1/3 chance at each other), 0..2 extra peers with random pieces that disconnect after 0..2 blocks or in the middle of a Piece message; "
                 "peers write with random segmentation (1 byte .. whole message) and unchoke after a random delay; in 2/3 of the runs one honest peer "
-                "leaves once all pieces are stored, in 1/3 everybody stays; observed: SHA-1 of every output file (compared with the model's "
+                "leaves once all pieces are stored, in 1/3 everybody stays; one run in six is a crowd of 2..15 leechers (every piece at exactly one of "
+                "them, all interested in us, all staying: more listed peers than the client connects to at once); observed: SHA-1 of every output file (compared with the model's "
                 "extractSpec of the content), panics of any task (panic hook), the session still running; distinct = distinct argument lines",
         "assumptions": STD_ASSUME_PURE + ["liveness on the real runtime is observed, not proved: tokio scheduling, TCP, reqwest, timers and the OS are outside the model",
                                            "SHA-1 collision freedom on the torrent's pieces is an explicit hypothesis of T1",
